@@ -667,8 +667,53 @@ def extend_case(draw):
             cand = list(range(len(spec["edges"])))
         insert_unary(spec, draw(st.sampled_from(cand)), draw(st.sampled_from([0.25, 0.5, 0.5, 1.0])),
                      draw(st.sampled_from([0.5, 0.25, 0.125])))
+    # open known finding extend_haplotypes.mutation_on_node_outside_tree: the class is excluded by
+    # construction (mutations only on nodes that are in the tree at their site, or on samples);
+    # PROBES re-executes its minimal reproducer.
     return dict(spec=spec, max_iter=draw(st.sampled_from([1, 1, 2, 3, 10, 10, 10, 10, 0, -1])),
-                default=draw(st.booleans()))
+                default=draw(st.booleans()), excluded_stray=drop_stray(spec))
+
+
+def stray_mutation(spec):
+    """A mutation sits on a non-sample node that is not part of the tree at the mutation's site
+    (no parent, no children there)."""
+    for m in spec["mutations"]:
+        if model.is_sample(spec, m[1]):
+            continue
+        par = model.parent_at(spec, F(spec["sites"][m[0]][0]))
+        if par[m[1]] < 0 and m[1] not in par:
+            return True
+    return False
+
+
+def drop_stray(spec):
+    """Remove the mutations of the class stray_mutation(); returns how many were removed."""
+    gone = set()
+    for j, m in enumerate(spec["mutations"]):
+        if model.is_sample(spec, m[1]):
+            continue
+        par = model.parent_at(spec, F(spec["sites"][m[0]][0]))
+        if par[m[1]] < 0 and m[1] not in par:
+            gone.add(j)
+    if gone:
+        mmap, rows = {}, []
+        for j, m in enumerate(spec["mutations"]):
+            if j not in gone:
+                mmap[j] = len(rows)
+                rows.append(list(m))
+        for m in rows:
+            m[3] = mmap.get(m[3], -1) if m[3] >= 0 else -1
+        spec["mutations"] = rows
+    return len(gone)
+
+
+def classify_extend(case, exc):
+    what = getattr(exc, "what", "")
+    if stray_mutation(case["spec"]) and (what.startswith("extend_haplotypes.genotypes")
+                                         or what.startswith("extend_haplotypes.simplify.")
+                                         or what.startswith("extend_haplotypes.ts")):
+        return "extend_haplotypes.mutation_on_node_outside_tree"
+    return None
 
 
 def is_subsequence(a, b):
@@ -687,6 +732,8 @@ def run_extend(case, ctx):
     unknown = any(m[4] is None for m in spec["mutations"])
     bad = mi <= 0 or bool(spec["migrations"]) or unknown
     ctx.label("bad_argument", bad)
+    ctx.label("mutation_on_node_outside_tree", not bad and stray_mutation(spec))  # only via PROBES
+    ctx.label("excluded_stray_mutations", case.get("excluded_stray", 0) > 0)
     if bad:
         try:
             ts.extend_haplotypes(max_iter=mi)
@@ -735,15 +782,26 @@ def run_extend(case, ctx):
             pg = model.parent_at(got, x)
             ctx.check(mg[1] in model.path_to_root(pg, mo[1]), W + ".mutations",
                       f"mutation moved from {mo[1]} to {mg[1]} which is not above it at {x}")
-    # simplify(extended) == simplify(original) modulo edge order
+    # simplify(extended) == simplify(original), modulo edge order and modulo the numbering that
+    # simplify gives to interchangeable ancestors (it follows the edge order): compare in input ids
     a, b = t_in.copy(), t_out.copy()
     a.edges.drop_metadata()  # simplify() cannot process edges with metadata
     b.edges.drop_metadata()
-    a.simplify(record_provenance=False)
-    b.simplify(record_provenance=False)
-    sa, sb = gen.spec_from_tables(a, tskit), gen.spec_from_tables(b, tskit)
+    back = []
+    for tb in (a, b):
+        nm = list(map(int, tb.simplify(record_provenance=False)))
+        inv_ = {o: i for i, o in enumerate(nm) if o >= 0}
+        sp = gen.spec_from_tables(tb, tskit)
+        ctx.check(len(inv_) == len(sp["nodes"]), W + ".simplify", "node map is not a bijection onto the output")
+        sp["edges"] = [[e[0], e[1], inv_[e[2]], inv_[e[3]], e[4]] for e in sp["edges"]]
+        sp["mutations"] = [[m[0], inv_[m[1]]] + m[2:] for m in sp["mutations"]]
+        back.append((sp, {inv_[o]: nd for o, nd in enumerate(sp["nodes"])}))
+    (sa, na), (sb, nb) = back
     multiset_eq(ctx, sb, sa, ["edges"], W + ".simplify.edges")
-    U.same(ctx, U.snap(a), U.snap(b), [x for x in U.TABLES if x != "edges"] + ["top"], W + ".simplify")
+    U.eq_rows(ctx, sb, sa, ["sites", "mutations"], W + ".simplify.sites_mutations")
+    ctx.check(na == nb, W + ".simplify.nodes", lambda: f"retained nodes {sorted(nb)} expected {sorted(na)}")
+    U.same(ctx, U.snap(a), U.snap(b), ["sites", "individuals", "populations", "provenances", "top"],
+           W + ".simplify")
     # idempotent at convergence is not documented; only that the result is a valid tree sequence
     U.ts_genotypes(ctx, model, out, spec, W + ".ts")
 
@@ -770,6 +828,19 @@ SUBCHECKS = [
                      "something_deleted": 0.2, "op_split_edges": 0.15, "op_decapitate": 0.15,
                      "op_delete_older": 0.15}),
     SubCheck("C11.extend_haplotypes", run_extend, strategy=extend_case, quick=1500, thorough=45000,
-             rule="the edge table changed",
+             rule="the edge table changed", classify=classify_extend,
              floors={"edges_changed": 0.2, "mutation_node_changed": 0.012, "known_mut_times": 0.2}),
 ]
+
+# minimal reproducer of the open finding: sample 0 under n=1 under p=2 on [0, 0.5), directly under p on
+# [0.5, 1); a mutation on n at position 0.75, where n is not in the tree.  extend_haplotypes() extends
+# n over [0.5, 1) and sample 0 changes from "A" to "T" at that site.
+PROBES = {
+    "extend_haplotypes.mutation_on_node_outside_tree": ("C11.extend_haplotypes", dict(
+        spec=dict(L=1.0,
+                  nodes=[[1, 0.0, -1, -1, ""], [0, 1.0, -1, -1, ""], [0, 2.0, -1, -1, ""]],
+                  edges=[[0.0, 0.5, 1, 0, ""], [0.5, 1.0, 2, 0, ""], [0.0, 0.5, 2, 1, ""]],
+                  sites=[[0.75, "A", ""]], mutations=[[0, 1, "T", -1, 1.5, ""]],
+                  individuals=[], populations=[], migrations=[]),
+        max_iter=10, default=True)),
+}
